@@ -127,6 +127,16 @@ example : TimeProg.run .eq Gen.TimeConds.simTimeEvaluate (TimeProg.simEnv ⟨.eq
   rw [show (⟨.eq, 5400, 0⟩ : SimTimeCond).rel = Rel.eq from rfl] at this
   rw [this]; decide
 
+/-- **the configured period**: `SimTimeCondition.__init__` (regenerated from the source) turns a numeric `repeat = r` into the
+period `r` for every Python numeric type it may come in — int, float (the documented type), numpy integer / float —,
+`True` into 86400 s and `False` / `None` into "no repeat"; `evaluate` (above) then takes `r > 0` as the period -/
+theorem source_repeat_is_period (r : Int) (k : TimeProg.NumKind) :
+    TimeProg.normRepeat Gen.TimeConds.simTimeRepeatInit (.num r k) = r ∧
+    TimeProg.normRepeat Gen.TimeConds.simTimeRepeatInit .pyTrue = 86400 ∧
+    TimeProg.normRepeat Gen.TimeConds.simTimeRepeatInit .pyFalse = 0 ∧
+    TimeProg.normRepeat Gen.TimeConds.simTimeRepeatInit .pyNone = 0 :=
+  ⟨TimeProg.repeat_number_gives_period r k, TimeProg.repeat_true_is_daily, TimeProg.repeat_false_is_none.1, TimeProg.repeat_false_is_none.2⟩
+
 /-- one pass of the `while` loop of the pre-solve scheduler, as regenerated from the source, is `loopStep` — hence
 `presolveLoop` — for every configuration, due list, state and both values of `first_step` -/
 theorem source_scheduler_pass_is_model (cfg : Cfg) (ref : Vals) (due : List Due) (first : Bool) (cnt : Nat) (s : St) :
